@@ -105,9 +105,10 @@ TIMINGS = {
     'tight_long_epoch': (1_700_000_000_000_000, 2_000, 1_000_000, False),
     'straggler': (1_000_000, 3_000, 90_000, True),      # a single-station measurement between poses
     'split': (1_000_000, 11_000, 120_000, False),       # 0/11/22/33 ms: one pose gives several groups
+    'tight_from_zero': (0, 3_000, 50_000, False),       # the recording starts at time stamp exactly 0.0
 }
 TIMING_NAMES = ('same_ts_wide', 'tight_wide', 'edge19_edge21', 'zero_edge21', 'tight_long_epoch',
-                'straggler', 'split')
+                'straggler', 'split', 'tight_from_zero')
 WINDOW_US = 20_000
 INTRA_ORDERS = ('asc_station', 'desc_station', 'rot1')
 
